@@ -377,8 +377,8 @@ Print Assumptions C02_cursor_walks_the_chain.
    counter consistent with the tree -- executable predicates that the scheduled correspondence evaluates on every
    step it replays) some thread can move whenever some thread is unfinished: locks are always requested in
    increasing pre-order position (tree mutex first; parent before child; left sibling before right; a leaf before
-   its chain successor), so no wait-for cycle exists.  That CI2 holds in every reachable state is validated
-   executably (over a million model steps) and is being proved separately; until then this is the partial form. *)
+   its chain successor), so no wait-for cycle exists.  That CI2 holds in every reachable state is proved
+   (C06_deadlock_free below instantiates this with the reachable-state invariant); this is the invariant-level form. *)
 Theorem C06_no_deadlock_in_invariant_states :
   forall (K V : Type) (ltb : K -> K -> bool) (order : nat) (s : st K V),
   CI2 ltb order s -> (exists t, unfinished s t = true) -> exists t, enabled order s t = true.
